@@ -21,7 +21,7 @@ def keepaliveProgs : Progs := fun op => match op with
 
 /-- lock operations of the `redis` backend as extracted from the real class (jug/backends) -/
 def redisProgs : Progs := fun op => match op with
-  | .get => (.prim .getsetL [(.nil, (.ret (.bool true))), (.valL, (.ret (.bool false))), (.valF, (.ret (.bool false)))])
+  | .get => (.prim .setnxL [(.one, (.ret (.bool true))), (.zero, (.ret (.bool false)))])
   | .release => (.prim .del [(.one, (.ret .none)), (.zero, (.ret .none))])
   | .isLocked => (.prim .get [(.nil, (.ret (.bool false))), (.valL, (.ret (.bool true))), (.valF, (.ret (.bool true)))])
   | .fail => (.prim .get [(.nil, (.ret (.bool false))), (.valL, (.prim .setF [(.ok, (.ret (.bool true)))])), (.valF, (.ret (.bool true)))])
